@@ -187,9 +187,13 @@ AggRow(rows, keys, spec, g) ==
             [] spec[j].op = "countd" -> Cell("I", Cardinality({rows[i][spec[j].i] : i \in I}))
             [] spec[j].op = "sum"    -> Cell(rows[any][spec[j].i].k, SumSet(rows, spec[j].i, I))]
 \* sums are judged only when every cell of the summed column is of one numeric kind
+\* ... and no int64 cell is one of the numbers beyond TLC's integers (BqlU.BIGINT: abstract stand-ins, ordered like
+\* the numbers they stand for but not summable)
 SumJudgeable(rows, keys, spec) ==
     \A j \in DOMAIN spec : spec[j].op = "sum" =>
-        \E k \in {"I", "F"} : \A i \in DOMAIN rows : rows[i][spec[j].i].k = k
+        /\ \E k \in {"I", "F"} : \A i \in DOMAIN rows : rows[i][spec[j].i].k = k
+        /\ \A i \in DOMAIN rows : rows[i][spec[j].i].k = "I" =>
+               (rows[i][spec[j].i].v < BIGINT /\ rows[i][spec[j].i].v > 0 - BIGINT)
 GroupOK(grouped, rows, keys, spec) ==
     LET exp == {AggRow(rows, keys, spec, g) : g \in GroupsOf(rows, keys)}
     IN  /\ Len(grouped) = Cardinality(GroupsOf(rows, keys))       \* exactly one row per group
@@ -210,7 +214,11 @@ Rank(c) == CASE c.k \in {"I", "F", "T"} -> c.v
 DevSortRank(c) == IF c.k \in {"I", "F"} /\ c.v < 0 THEN 0 - 1000000 - c.v ELSE Rank(c)
 \* key columns judged only when all their values are of one kind
 OneKind(rows, col) == \A i, j \in DOMAIN rows : rows[i][col].k = rows[j][col].k
-Judgeable(rows, order) == \A o \in Range(order) : OneKind(rows, o.i)
+\* ... and no predicate that some triple stores in a second spelling of its anchor (pr = 0: its printed form is not a
+\* function of the value)
+Judgeable(rows, order) == \A o \in Range(order) :
+    /\ OneKind(rows, o.i)
+    /\ \A i \in DOMAIN rows : rows[i][o.i].k = "P" => PRED[rows[i][o.i].v].pr # 0
 RECURSIVE CmpFrom(_, _, _, _)
 \* -1: r1 strictly before r2, 0: tie on all keys from position k on, 1: strictly after
 CmpFrom(r1, r2, order, k) ==
